@@ -4,18 +4,20 @@
    `vtree_builders` instantiates the constructors of Serde/ViewDe.v `view_gen`:
      text         -> VText          flex      -> VFlex        container -> VContainer
      glyph        -> VGlyph         image     -> VImage       tag       -> VTag
-     ref          -> VNone  (ViewCached without a cache leaves the default layout node and paints nothing)
+     ref          -> VRef None  (ViewCached: the deserialiser is given no cache in these documents)
      trace-layout -> the inner view (TraceLayout::layout / render delegate to it on the same node)
-     image_ascii  -> not a constructor of the C10 model: Err 100 (stays correspondence-only)
+     image_ascii  -> VImageAscii
    The CONTENT of the nodes (cells of a text, parsed faces, alignment, flex factors, margins, ids)
    comes from arbitrary functions of the JSON node (`content`): C10's theorems hold for every
    view tree, so nothing depends on them.  What is fixed is the SHAPE: which node has which
    children. *)
 From Coq Require Import String.
 From Coq Require Import List NArith ZArith Bool Lia.
+From SNT Require Import Surface.Bounds Surface.Shape Surface.ShapeProofs
+  Render.CellLayout Render.Writer Render.WriterFrame View.ViewModel View.LayoutProofs Props.C10.
+(* own modules last: their names (json constructors, i64_max ...) take precedence *)
 From SNT Require Import Base.Outcome Base.Report Keys.KeyParse Serde.Json Serde.ImageDe Serde.ImageProofs
-  Serde.ViewDe Serde.ViewProofs Surface.Bounds Surface.Shape Surface.ShapeProofs
-  Render.CellLayout Render.Writer Render.WriterFrame View.ViewModel View.LayoutProofs View.RenderProofs View.FitsProofs.
+  Serde.ViewDe Serde.ViewProofs.
 Import ListNotations.
 Local Open Scope N_scope.
 
@@ -30,7 +32,8 @@ Record content := {
   tag_of : json -> N;
   glyph_id : json -> N;
   fallback_of : json -> list N;
-  image_id : image -> N
+  image_id : image -> N;
+  ascii_color : image -> N
 }.
 
 Section Tree.
@@ -69,17 +72,17 @@ Section Tree.
        b_glyph := fun j =>
          VGlyph (glyph_id K j) (N.to_nat (fst (size_attr j (1, 3)))) (N.to_nat (snd (size_attr j (1, 3)))) (fallback_of K j);
        b_image := fun j img => VImage (image_id K img) (i_h img) (i_w img);
-       b_ascii := fun _ _ => Err 100;
+       b_ascii := fun _ img => Ok (VImageAscii (i_h img) (i_w img) (ascii_color K img));
        b_tag := fun j x => VTag (tag_of K j) x;
-       b_ref := fun _ => VNone;
+       b_ref := fun _ => VRef None;
        b_trace := fun _ x => x |}.
 
   (* the view tree of a document *)
   Definition view_tree (k : vkind) (j : json) : outcome vtree := view_gen_kind orc frgba vtree_builders k j.
 
-  (* ---- coverage: whatever deserialises has a view tree, unless it contains an image_ascii view *)
+  (* ---- coverage: whatever deserialises has a view tree *)
 
-  Definition covered {T} (y : outcome T) : Prop := (exists v, y = Ok v) \/ y = Err 100.
+  Definition covered {T} (y : outcome T) : Prop := exists v, y = Ok v.
 
   Lemma bind_cov {A U} (x : outcome A) (f : A -> outcome unit) (g : A -> outcome U) :
     bind x f = Ok tt -> (forall a, x = Ok a -> f a = Ok tt -> covered (g a)) -> covered (bind x g)
@@ -96,14 +99,14 @@ Section Tree.
     cbn [view_gen].
     destruct (match jget j (s2l "type") with Some (JStr t) => Some t | _ => None end) as [t|]; [|discriminate].
     destruct (str_eqb t (s2l "text")).
-    { intros H. apply (bind_cov _ _ _ H). intros a _ _. left. eexists. reflexivity. }
+    { intros H. apply (bind_cov _ _ _ H). intros a _ _. eexists. reflexivity. }
     destruct (str_eqb t (s2l "trace-layout")).
     { destruct (jget j (s2l "view")) as [v|]; [|discriminate]. intros H.
       destruct (view_gen orc frgba unit_builders f v) as [[]| | |] eqn:E; try discriminate.
-      destruct (IH v E) as [[x Ex]|Ex]; rewrite Ex; cbn [bind]; [left; eexists; reflexivity | right; reflexivity]. }
+      destruct (IH v E) as [x Ex]; rewrite Ex; cbn [bind]; eexists; reflexivity. }
     destruct (str_eqb t (s2l "flex")).
     { intros H. apply (bind_cov _ _ _ H). intros _ _ H1. apply (bind_cov _ _ _ H1). intros _ _ H2.
-      destruct (jget j (s2l "children")) as [ch|]; [|left; eexists; reflexivity].
+      destruct (jget j (s2l "children")) as [ch|]; [|eexists; reflexivity].
       destruct ch; try discriminate.
       (* the children loop *)
       match type of H2 with bind (map_out ?gu l) _ = _ => set (GU := gu) in * end.
@@ -115,45 +118,44 @@ Section Tree.
         destruct (jget c (s2l "view")) as [v|]; [apply IH; exact Hc3 | discriminate]. }
       clearbody GU GT.
       assert (L : forall l0 ku, map_out GU l0 = Ok ku -> covered (map_out GT l0)).
-      { induction l0 as [|c l0 IHl]; intros ku Hk; [left; eexists; reflexivity|].
+      { induction l0 as [|c l0 IHl]; intros ku Hk; [eexists; reflexivity|].
         cbn [map_out] in *.
         destruct (GU c) as [[]| | |] eqn:E; try discriminate. cbn [bind] in Hk.
         destruct (map_out GU l0) as [k0| | |] eqn:E0; try discriminate.
-        destruct (Hg c E) as [[x Ex]|Ex]; rewrite Ex; cbn [bind]; [|right; reflexivity].
-        destruct (IHl k0 eq_refl) as [[y Ey]|Ey]; rewrite Ey; cbn [bind]; [left; eexists; reflexivity | right; reflexivity]. }
+        destruct (Hg c E) as [x Ex]; rewrite Ex; cbn [bind].
+        destruct (IHl k0 eq_refl) as [y Ey]; rewrite Ey; cbn [bind]; eexists; reflexivity. }
       destruct (map_out GU l) as [ku| | |] eqn:EU; try discriminate.
-      destruct (L l ku EU) as [[y Ey]|Ey]; rewrite Ey; cbn [bind]; [left; eexists; reflexivity | right; reflexivity]. }
+      destruct (L l ku EU) as [y Ey]; rewrite Ey; cbn [bind]; eexists; reflexivity. }
     destruct (str_eqb t (s2l "container")).
     { intros H. apply (bind_cov _ _ _ H). intros _ _ H1. apply (bind_cov _ _ _ H1). intros _ _ H2.
       apply (bind_cov _ _ _ H2). intros _ _ H3. apply (bind_cov _ _ _ H3). intros _ _ H4.
       apply (bind_cov _ _ _ H4). intros _ _ H5.
       destruct (jget j (s2l "child")) as [v|]; [|discriminate].
       destruct (view_gen orc frgba unit_builders f v) as [[]| | |] eqn:E; try discriminate.
-      destruct (IH v E) as [[x Ex]|Ex]; rewrite Ex; cbn [bind]; [left; eexists; reflexivity | right; reflexivity]. }
+      destruct (IH v E) as [x Ex]; rewrite Ex; cbn [bind]; eexists; reflexivity. }
     destruct (str_eqb t (s2l "glyph")).
-    { intros H. apply (bind_cov _ _ _ H). intros a _ _. left. eexists. reflexivity. }
+    { intros H. apply (bind_cov _ _ _ H). intros a _ _. eexists. reflexivity. }
     destruct (str_eqb t (s2l "image")).
-    { intros H. apply (bind_cov _ _ _ H). intros a _ _. left. eexists. reflexivity. }
+    { intros H. apply (bind_cov _ _ _ H). intros a _ _. eexists. reflexivity. }
     destruct (str_eqb t (s2l "image_ascii")).
-    { intros H. apply (bind_cov _ _ _ H). intros a _ _. right. reflexivity. }
+    { intros H. apply (bind_cov _ _ _ H). intros a _ _. eexists. reflexivity. }
     destruct (str_eqb t (s2l "color")); [discriminate|].
     destruct (str_eqb t (s2l "tag")).
     { destruct (jget j (s2l "view")) as [v|]; [|discriminate].
       destruct (jget j (s2l "tag")); [|discriminate]. intros H.
       destruct (view_gen orc frgba unit_builders f v) as [[]| | |] eqn:E; try discriminate.
-      destruct (IH v E) as [[x Ex]|Ex]; rewrite Ex; cbn [bind]; [left; eexists; reflexivity | right; reflexivity]. }
+      destruct (IH v E) as [x Ex]; rewrite Ex; cbn [bind]; eexists; reflexivity. }
     destruct (str_eqb t (s2l "ref")); [|discriminate].
-    intros H. apply (bind_cov _ _ _ H). intros a _ _. left. eexists. reflexivity.
+    intros H. apply (bind_cov _ _ _ H). intros a _ _. eexists. reflexivity.
   Qed.
 
   Theorem view_tree_covers (k : vkind) (j : json) :
-    view_de_kind orc frgba k j = Ok tt ->
-    (exists v, view_tree k j = Ok v) \/ view_tree k j = Err 100.
+    view_de_kind orc frgba k j = Ok tt -> exists v, view_tree k j = Ok v.
   Proof.
     unfold view_de_kind, view_tree. destruct k; cbn [view_gen_kind].
     - apply view_gen_covered.
-    - intros H. apply (bind_cov _ _ _ H). intros a _ _. left. eexists. reflexivity.
-    - intros H. apply (bind_cov _ _ _ H). intros a _ _. left. eexists. reflexivity.
+    - intros H. apply (bind_cov _ _ _ H). intros a _ _. eexists. reflexivity.
+    - intros H. apply (bind_cov _ _ _ H). intros a _ _. eexists. reflexivity.
   Qed.
 
   (* the last clause of C19 for every kind of view the C10 model has: the view tree of an accepted
@@ -162,11 +164,11 @@ Section Tree.
   Theorem view_tree_layout_render (k : vkind) (j : json) (v : vtree) :
     view_tree k j = Ok v ->
     forall (H W : nat) (vc : vctx) (c : ct) (sh : shape) (w : window) (s : rst),
-      (Z.of_nat (Nat.max H W) <= i64_max)%Z -> Valid c -> Rep H W sh w -> (H * W <= length (r_data s))%nat ->
+      (Z.of_nat (Nat.max H W) <= Bounds.i64_max)%Z -> Valid c -> Rep H W sh w -> (H * W <= length (r_data s))%nat ->
       exists t s', layout vc v c = Ok t /\ render vc v t sh s = Ok s' /\ Frame sh (r_data s) (r_data s').
   Proof.
     intros _ H W vc c sh w s Hmax Hv Hrep Hlen.
-    exact (layout_render_total H W Hmax vc v c sh w s Hv Hrep Hlen).
+    exact (C10_total H W vc v c sh w s Hmax Hv Hrep Hlen).
   Qed.
 
 End Tree.
